@@ -16,6 +16,7 @@ base class, new unknown call, ...): for each the table says which statements of 
 really fails in a private copy of the Lean workspace (the shared workspace is never touched).
 
     /venv/bin/python harness/translate_exc_selftest.py [--runs N] [--seed S] [--lean] [--only validate|mutate]
+                                                       [--mut name-prefix[,name-prefix...]]
 """
 import ast
 import importlib
@@ -105,7 +106,8 @@ class U(int):
 
     def __new__(cls):
         RT.tick()
-        return int.__new__(cls, RT.rng.randrange(256))
+        # mostly small: chaotic values index literal tuples such as `(0, 9, 18)[self.brs]`
+        return int.__new__(cls, RT.rng.choice((0, 0, 1, 1, 2, RT.rng.randrange(256))))
 
     def __getattr__(self, name):
         if name.startswith("__") and name.endswith("__"):
@@ -194,8 +196,18 @@ class StoreProxy:
 class Instrument(ast.NodeTransformer):
     """replace every node the translator classified by a hook call"""
 
-    def __init__(self, marks, root):
+    def __init__(self, marks, root, stored=None):
         self.marks, self.root, self.table = marks, root, []
+        self.stored = stored or {}      # source of a raised attribute -> class stored there (Config.STORED_EXC)
+
+    def visit_Raise(self, node):
+        self.generic_visit(node)
+        if node.exc is not None and ast.unparse(node.exc) in self.stored:
+            # `raise self._attribute_error`: on a chaotic `self` the attribute is not an exception; raise what the
+            # configuration says is stored there
+            node.exc = ast.copy_location(ast.Call(func=ast.Name("__xf_stored__", ast.Load()),
+                                                  args=[ast.Constant(self.stored[ast.unparse(node.exc)])], keywords=[]), node.exc)
+        return node
 
     def key(self, node, ctx):
         return (type(node).__name__, ctx, node.lineno, node.col_offset, node.end_lineno, node.end_col_offset)
@@ -231,6 +243,16 @@ class Instrument(ast.NodeTransformer):
         self.generic_visit(node)
         if k in self.marks and isinstance(node.ctx, ast.Load):
             new = ast.Call(func=ast.Name("__xf_site__", ast.Load()), args=[self.idx(self.marks[k]), node.value], keywords=[])
+            return ast.copy_location(new, node)
+        return node
+
+    def visit_Compare(self, node):
+        """`x is None` / `x is not None` on a chaotic value is a random test as well (identity cannot be overloaded)"""
+        self.generic_visit(node)
+        if len(node.ops) == 1 and isinstance(node.ops[0], (ast.Is, ast.IsNot)) and \
+                isinstance(node.comparators[0], ast.Constant) and node.comparators[0].value is None:
+            new = ast.Call(func=ast.Name("__xf_isnone__", ast.Load()),
+                           args=[node.left, ast.Constant(isinstance(node.ops[0], ast.Is))], keywords=[])
             return ast.copy_location(new, node)
         return node
 
@@ -350,7 +372,8 @@ class Validator:
         for n in ast.walk(tree):
             if isinstance(n, ast.FunctionDef) and n.lineno == fn_node.lineno and n.name == fn_node.name:
                 target = n
-        ins = Instrument(ft.marks, target)
+        stored = {src: c for (m, src), c in self.tr.cfg.STORED_EXC.items() if m == spec["module"]}
+        ins = Instrument(ft.marks, target, stored)
         new = ins.visit(target)
         ast.fix_missing_locations(new)
         code = compile(ast.Module(body=[new], type_ignores=[]), "<xf:%s>" % spec["id"], "exec")
@@ -391,8 +414,14 @@ class Validator:
             def store(i_s, i_l, x, table=table):
                 return StoreProxy(table[i_s], table[i_l], fire)
 
+            def isnone(x, positive):
+                if isinstance(x, U):
+                    return _rb()
+                return (x is None) == positive
+
             ns = dict(mod.__dict__)
-            ns.update({"__xf_site__": site, "__xf_store__": store})
+            ns.update({"__xf_site__": site, "__xf_store__": store, "__xf_isnone__": isnone,
+                       "__xf_stored__": lambda c: self.real_class(c).__new__(self.real_class(c))})
             exec(code, ns)
             import builtins
             for free in self._names(ns[name].__code__):       # closure variables of a nested function
@@ -608,12 +637,56 @@ MUTATIONS = [
     ("untranslatable-statement", "statement kind the translator refuses (match)", "tt1_transceive_escapes",
      sub("tag/tt1.py", "        started = time.time()\n        error = None\n        for retry in range(3):",
          "        started = time.time()\n        match timeout:\n            case 0:\n                pass\n        error = None\n        for retry in range(3):", after="def transceive")),
+    # ---- nfc/dep.py (group dep)
+    ("dep-retransmit-narrow", "narrow a handler (TransmissionError no longer answered with NAK)", "dep_initiator_exchange_no_transmission_error",
+     sub("dep.py", "            except nfc.clf.TransmissionError:\n                res = request_retransmission(self, 2, rwt, deadline)",
+         "            except nfc.clf.ProtocolError:\n                res = request_retransmission(self, 2, rwt, deadline)")),
+    ("dep-deactivate-narrow", "narrow a handler (Initiator.deactivate)", "dep_deactivate_escapes",
+     sub("dep.py", "        except nfc.clf.CommunicationError:\n            return\n        else:", "        except nfc.clf.TimeoutError:\n            return\n        else:")),
+    ("dep-target-deactivate-narrow", "narrow a handler (Target._deactivate)", "dep_deactivate_escapes",
+     sub("dep.py", "                req = self.send_res_recv_req(res, deadline)\n            except nfc.clf.CommunicationError:\n                return",
+         "                req = self.send_res_recv_req(res, deadline)\n            except nfc.clf.TransmissionError:\n                return")),
+    ("dep-psl-typeerror-unhandled", "handler catches an unrelated class (PSL decode)", "dep_pdu_codec_escapes",
+     sub("dep.py", "            except TypeError:\n                errstr = \"invalid format of the \" + cls.PDU_NAME", "            except IndexError:\n                errstr = \"invalid format of the \" + cls.PDU_NAME")),
+    ("dep-decode-frame-wrong-class", "raise another class (decode_frame)", "dep_frame_codec_escapes",
+     sub("dep.py", "            error = \"NFC-DEP frame length byte must be from 3 to 255\"\n            raise nfc.clf.TransmissionError(error)",
+         "            error = \"NFC-DEP frame length byte must be from 3 to 255\"\n            raise ValueError(error)", after="class Target")),
+    ("dep-rtox-wrong-class", "raise another class (RTOX range check)", "dep_initiator_exchange_escapes",
+     sub("dep.py", "                error = \"NFC-DEP RTOX must be in range 1 to 59\"\n                raise nfc.clf.ProtocolError(error)",
+         "                error = \"NFC-DEP RTOX must be in range 1 to 59\"\n                raise IndexError(error)")),
+    ("dep-attention-outside-try", "move a call out of the try (attention request)", "dep_recovery_escapes",
+     sub("dep.py", "                try:\n                    res = self.send_req_recv_res(req, timeout)\n                except nfc.clf.CommunicationError:\n                    continue\n                if res.pfb.fmt == DEP_RES.TimeoutExtension:\n                    error = \"received NFC-DEP RTOX response to NACK or ATN\"\n                    raise nfc.clf.ProtocolError(error)\n                if res.pfb.fmt != DEP_RES.Attention:",
+         "                res = self.send_req_recv_res(req, timeout)\n                if res.pfb.fmt == DEP_RES.TimeoutExtension:\n                    error = \"received NFC-DEP RTOX response to NACK or ATN\"\n                    raise nfc.clf.ProtocolError(error)\n                if res.pfb.fmt != DEP_RES.Attention:")),
+    ("dep-benign-refactor", "harmless edit (log line in the retry loop): nothing may break", None,
+     sub("dep.py", "            except nfc.clf.TimeoutError:\n                request_attention(self, 2, rwt, deadline)", "            except nfc.clf.TimeoutError:\n                log.debug(\"attention\")\n                request_attention(self, 2, rwt, deadline)")),
+    # ---- LLCP socket API (group sock)
+    ("sock-recv-epipe-narrow", "handler catches an unrelated class (RawAccessPoint.recv: the wake-up IndexError)", "socket_wakeup_indexerror_mapped",
+     sub("llcp/tco.py", "                return super(RawAccessPoint, self).recv()\n            except IndexError:", "                return super(RawAccessPoint, self).recv()\n            except KeyError:")),
+    ("sock-accept-unprotected", "move a call out of the try (DataLinkConnection.accept)", "socket_wakeup_indexerror_mapped",
+     sub("llcp/tco.py", "            try:\n                rcvd_pdu = super(DataLinkConnection, self).recv()\n            except IndexError:\n                raise err.Error(errno.EPIPE)\n            self.recv_buf -= 1",
+         "            rcvd_pdu = super(DataLinkConnection, self).recv()\n            self.recv_buf -= 1")),
+    ("sock-bind-reraise", "replace raise X by bare raise (no free address)", "socket_api_escapes",
+     sub("llcp/llc.py", "            except ValueError:\n                raise err.Error(errno.EAGAIN)", "            except ValueError:\n                raise")),
+    ("sock-send-wrong-class", "raise another class (DataLinkConnection.send: message too long)", "socket_api_escapes",
+     sub("llcp/tco.py", "            if len(message) > self.send_miu:\n                raise err.Error(errno.EMSGSIZE)\n            while self.send_window_slots",
+         "            if len(message) > self.send_miu:\n                raise ValueError(\"message too long\")\n            while self.send_window_slots")),
+    ("sock-connectrefused-base", "change a base class (ConnectRefused no longer an nfc.llcp.Error)", "socket_api_escapes",
+     sub("llcp/err.py", "class ConnectRefused(Error):", "class ConnectRefused(Exception):")),
+    ("sock-sap-shutdown-narrow", "handler catches an unrelated class (ServiceAccessPoint.shutdown)", "sap_shutdown_never_raises",
+     sub("llcp/llc.py", "                socket = self.sock_list.pop()\n            except IndexError:\n                return",
+         "                socket = self.sock_list.pop()\n            except KeyError:\n                return")),
+    ("sock-sd-enqueue-keyerror", "handler catches an unrelated class (ServiceDiscovery.enqueue, called by dispatch)", "llc_collect_dispatch_escape",
+     sub("llcp/llc.py", "                        name = self.sent[tid]\n                    except KeyError:\n                        continue",
+         "                        name = self.sent[tid]\n                    except IndexError:\n                        continue")),
+    ("sock-benign-refactor", "harmless edit (log line in bind): nothing may break", None,
+     sub("llcp/llc.py", "            if self.terminated:\n                raise err.Error(errno.ESHUTDOWN)\n            self._bind(socket, addr_or_name)",
+         "            if self.terminated:\n                raise err.Error(errno.ESHUTDOWN)\n            log.debug(\"bind\")\n            self._bind(socket, addr_or_name)")),
     ("benign-refactor", "harmless edit (log line added, handler body reformatted): nothing may break", None,
      sub("tag/tt2.py", "                error = e\n                reason = error.__class__.__name__", "                error = e\n                log.debug(\"retry\")\n                reason = error.__class__.__name__", after="def transceive")),
 ]
 
 
-def mutate(with_lean):
+def mutate(with_lean, select=None):
     ws = private_workspace()
     gen = os.path.join(ws, "NfcVerif", "Gen")
     rows = []
@@ -628,6 +701,8 @@ def mutate(with_lean):
     else:
         print("baseline: diagnosis %s" % (base or "clean"))
     for name, kind, expect, mut in MUTATIONS:
+        if select and not any(name.startswith(p) for p in select.split(",")):
+            continue
         root = os.path.join(WORK, "mut", name)
         shutil.rmtree(root, ignore_errors=True)
         os.makedirs(root)
@@ -651,7 +726,7 @@ def mutate(with_lean):
         rows.append((name, kind, expect, diag, broken, rc, others, unknown, time.time() - t1))
     translate_exc.emit(REPO, gen)
     bad = 0
-    print("\npart 2: %d mutations (%.0fs)" % (len(MUTATIONS), time.time() - t0))
+    print("\npart 2: %d mutations (%.0fs)" % (len(rows), time.time() - t0))
     print("%-32s | %-34s | %s" % ("mutation", "expected to break", "statements that break (diagnosis) / lake build"))
     for r in rows:
         name, kind, expect, diag, broken = r[:5]
@@ -684,5 +759,5 @@ if __name__ == "__main__":
         rc += validate(seed, runs)
         rc += sensitivity(seed, runs)
     if only in (None, "mutate"):
-        rc += mutate("--lean" in args)
+        rc += mutate("--lean" in args, args[args.index("--mut") + 1] if "--mut" in args else None)
     sys.exit(1 if rc else 0)
